@@ -37,6 +37,10 @@ PROBE_VALID_NO_ATTR = ('valid schema without attributes',
 PROBE_CYCLE = ('subtype cycle', 'length 2',
                'SCHEMA pc;\nENTITY a\n  SUBTYPE OF (b);\n  x : INTEGER;\nEND_ENTITY;\nENTITY b\n  SUBTYPE OF (a);\n  y : INTEGER;\nEND_ENTITY;\n'
                'ENTITY c\n  SUBTYPE OF (b);\n  z : INTEGER;\nDERIVE\n  SELF\\a.x : INTEGER := 1;\nEND_ENTITY;\nEND_SCHEMA;\n')
+# valid (ISO 10303-11 14.5: SELF inside an entity declaration is the instance); rejected by the unchanged tree (open finding)
+PROBE_SELF_BOUND = ('SELF.attr in an aggregate bound of an attribute',
+                    'SCHEMA ps;\nENTITY a;\n  x : INTEGER;\nEND_ENTITY;\nENTITY h;\n  n : INTEGER;\n  q : a;\n  az : LIST [1:SELF.n] OF INTEGER;\n'
+                    '  cz : LIST [1:?] OF SET [0:SELF.q.x] OF INTEGER;\nDERIVE\n  dz : LIST [0:SELF.n] OF INTEGER := [1];\nEND_ENTITY;\nEND_SCHEMA;\n')
 
 
 def fault_name(m):
@@ -245,6 +249,14 @@ def main(chk):
         chk.seen('probe', name, tr.tool, tr.verdict)
         if tr.verdict == 'accepted' and not tr.markers:
             chk.violation('valid probe x %s|accepted without its success marker' % tr.tool, tr.r.out[-300:] + tr.r.err[-300:], {'input.exp': text})
+    name, text = PROBE_SELF_BOUND
+    trs = run_all(text)
+    chk.ev(len(trs))
+    chk.count('probes_run')
+    for tr in trs:
+        chk.seen('probe', name, tr.tool, tr.verdict)
+    for key, what in judge_valid(trs, 'probe (%s)' % name):
+        chk.violation(key, what, {'input.exp': text}, dict(probe=name, runs=[tr.brief() for tr in trs]))
     cls, variant, text = PROBE_CYCLE
     trs = run_all(text)
     chk.ev(len(trs))
